@@ -244,7 +244,7 @@ func runC12(tier string, seed uint64, o *Out) error {
 	// (2) layout variants and near-misses of the two shapes: what the recognisers compile, and the decision
 	spaces := []string{"", " ", "  ", "\t", " \t ", "\n", "\r", "\f"}
 	sp := func() string { return spaces[rng.Intn(len(spaces))] }
-	fields := []string{"x", "y", "z", "_f1", "X9_", "nil", "true", "abs", "_"}
+	fields := []string{"x", "y", "z", "_f1", "X9_", "nil", "true", "false", "_"}
 	someRows := func() []map[string]any {
 		var rows []map[string]any
 		for i := 0; i < 6; i++ {
